@@ -38,6 +38,9 @@ WellFormed(p) ==
   /\ (p.opt = "nosend" => p.async)
   /\ (p.deps = "implref2" => p.opt \in {"none", "nosend", "export"})
   /\ (p.hyg => Len(p.params) >= 2 /\ p.params[1] = "i32" /\ p.params[2] = "i32" /\ p.opt = "none")
+  \* hygtr: the item is produced by a macro_rules! macro whose caller supplies the TRAIT NAME (`#[entrait(pub $tr)] fn ..`): the
+  \* attribute's tokens and the item's tokens live in different hygiene contexts
+  /\ (p.hygtr => p.opt = "none" /\ ~p.hyg /\ p.deps # "concrete")
   /\ Cardinality({ i \in DOMAIN p.params : p.params[i] \in {"samename", "liftname"} }) <= 1     \* one binding of that name at most
   /\ (p.opt = "unimock" => ~(\E i \in DOMAIN p.params : p.params[i] \in {"gen", "liftname"}) /\ p.deps # "genval")
   /\ (p.opt = "mockall" => ~p.async /\ ~(\E i \in DOMAIN p.params : p.params[i] \in {"gen", "str", "liftname"}) /\ p.deps # "genval")
